@@ -140,37 +140,48 @@ def rule_fwd(env, shared):
                               "arguments are not forwarded unchanged to the inner iterator: receiver ok=%s, args=%s" % (
                                   recv_ok, [fmt(x)[:40] for x in args])))
                 continue
-            # wrapper shape
+            # wrapper shape, in canonical form: identity | option:<P> | iter:E, where the payload shape <P> is
+            # identity | E (clone / copy of the element) | iter:E | NextChunk{begin_idx, iter:E}
             hole = ("hole",)
             wt = _replace(t, rt, hole)
             wt = unref(wt)
             while wt[0] in ("deref", "ref"):
                 wt = wt[1]
             shape = None
+            pay = unref(ev.payload(ctx, rt))
+            cands = [("param", 2), pay, ("payload", rt)]
             if wt == hole:
                 shape = "identity"
-            elif wt[0] == "call" and wt[1] in MAPPERS and wt[2] and unref(wt[2][0]) == hole:
-                shape = wt[1]
+            elif wt[0] == "call" and wt[1] in ("Option::cloned", "Option::copied") and wt[2] and unref(wt[2][0]) == hole:
+                shape = "option:E"
+            elif wt[0] == "call" and wt[1] in ("Iterator::cloned", "Iterator::copied") and wt[2] and unref(wt[2][0]) == hole:
+                shape = "iter:E"
             elif wt[0] == "call" and wt[1] == "Option::map" and len(wt[2]) == 2 and unref(wt[2][0]) == hole:
                 clo = unref(wt[2][1])
                 if clo[0] == "agg" and clo[1].startswith("closure:"):
                     cb = F.bodies.get(clo[1][len("closure:"):])
                     if cb is not None:
                         cctx = env.ctx(cb, sadt, None)
-                        ct = unref(ev.local(cctx, 0))
-                        pay = unref(ev.payload(ctx, rt))
-                        x = ("param", 2)
-                        cands = (x, pay)
-
-                        def is_x(z):
-                            return unref(z) in cands
-                        if ct[0] == "agg" and ct[1].endswith("NextChunk::NextChunk") and len(ct[2]) == 2:
-                            b0, v0 = unref(ct[2][0]), unref(ct[2][1])
-                            if b0[0] == "field" and b0[2] == 0 and is_x(b0[1]) and v0[0] == "call" and v0[1] in MAPPERS \
-                                    and unref(v0[2][0])[0] == "field" and unref(v0[2][0])[2] == 1 and is_x(unref(v0[2][0])[1]):
-                                shape = "map:NextChunk{begin_idx, %s(values)}" % v0[1]
-                        elif ct[0] == "call" and ct[1] in MAPPERS and is_x(ct[2][0]):
-                            shape = "map:%s" % ct[1]
+                        ps = _payload_shape(unref(ev.local(cctx, 0)), cands)
+                        if ps:
+                            shape = "option:" + ps
+            elif b.locals[0]["ty"]["s"].replace("core::", "std::").startswith("std::option::Option<"):
+                # written with `?` / match: None exactly when the inner call returned None, Some(mapped payload) otherwise
+                from guards import local_cases
+                cs = [c for c in (local_cases(ev, ctx, 0, True) or []) if c[0] in ("Some", "None")]
+                shapes_here = set()
+                good = bool(cs)
+                for (K, fs, v) in cs:
+                    if ("is_some", unref(rt), K == "Some") not in fs:
+                        good = False
+                    elif K == "Some":
+                        ps = _payload_shape(unref(v[2][0]), cands) if (v is not None and v[0] == "agg" and v[2]) else None
+                        if ps is None:
+                            good = False
+                        else:
+                            shapes_here.add(ps)
+                if good and len(shapes_here) == 1 and any(K == "None" for (K, _f, _v) in cs):
+                    shape = "option:" + shapes_here.pop()
             if shape is None:
                 out.append(Ob("FWD", key, "viol", loc,
                               "the result of the inner call is not passed through unchanged / mapped only by clone or copy: %s"
@@ -190,6 +201,35 @@ def rule_fwd(env, shared):
             else:
                 out.append(Ob("FWD.iso", k, "ok", "-", "both adaptors forward %s the same way" % mk))
     return out
+
+
+def _payload_shape(p, cands):
+    """canonical shape of a payload expression over the inner payload (one of cands), or None"""
+    p = unref(p)
+    cands = [unref(c) for c in cands]
+
+    def is_x(z):
+        z = unref(z)
+        return z in cands
+
+    def is_field(z, i):
+        z = unref(z)
+        return z[0] == "field" and z[2] == i and is_x(z[1])
+    if is_x(p):
+        return "identity"
+    if p[0] == "deref" and is_x(p[1]):
+        return "E"  # `*value`: a copy (moving out of a reference type-checks for Copy types only)
+    if p[0] == "call" and p[1] == "clone" and p[2] and (is_x(p[2][0]) or (unref(p[2][0])[0] == "deref" and is_x(unref(p[2][0])[1]))):
+        return "E"
+    if p[0] == "call" and p[1] in ("Iterator::cloned", "Iterator::copied") and p[2] and is_x(p[2][0]):
+        return "iter:E"
+    if p[0] == "agg" and p[1].endswith("NextChunk::NextChunk") and len(p[2]) == 2 and is_field(p[2][0], 0):
+        v0 = unref(p[2][1])
+        if is_field(v0, 1):
+            return "identity"
+        if v0[0] == "call" and v0[1] in ("Iterator::cloned", "Iterator::copied") and v0[2] and is_field(v0[2][0], 1):
+            return "NextChunk{begin_idx, iter:E}"
+    return None
 
 
 def _norm_shape(s):
@@ -249,36 +289,54 @@ def rule_each(env, shared):
         if a is None:
             out.append(Ob("EACH", "EACH|%s|algorithm" % nm, "viol", "-", "algorithm body of %s not found" % nm))
             continue
-        # the algorithms are judged on their direct structure: calls are not inlined
+        # the algorithms are judged on their direct structure: calls are not inlined; private helper functions an
+        # algorithm hands part of its work to (an extracted arm) are analysed as parts of it
         from terms import Evaluator, Ctx
         ev = Evaluator(F, inline=False)
         ctx = Ctx(a, stack=(a.def_,))
         loc = a.file_line()
-        sccs = [body for (h, body) in a.natural_loops()]
+        parts = _algo_parts(env, ev, a, bn)
         pulls = []
         creations = []
-        for bi, t, c in a.calls():
-            if a.blocks[bi]["cleanup"]:
-                continue
-            if c.trait == R.T_CON and c.name in ("next", "next_id_and_value"):
-                pulls.append((bi, t, c, "single"))
-            elif bn is not None and c.def_ == bn.def_ or (c.local and c.name == "next" and bn is not None
-                                                          and c.path == bn.path):
-                pulls.append((bi, t, c, "buffered"))
-            elif c.trait == R.T_CON and c.name == "buffered_iter":
-                creations.append((bi, t, c))
+        for (hb, hctx, argmap, site) in parts:
+            for bi, t, c in hb.calls():
+                if hb.blocks[bi]["cleanup"]:
+                    continue
+                if c.trait == R.T_CON and c.name in ("next", "next_id_and_value"):
+                    pulls.append((bi, t, c, "single", hb, hctx))
+                elif bn is not None and c.def_ == bn.def_ or (c.local and c.name == "next" and bn is not None
+                                                              and c.path == bn.path):
+                    pulls.append((bi, t, c, "buffered", hb, hctx))
+                elif c.trait == R.T_CON and c.name == "buffered_iter":
+                    creations.append((bi, t, c, hb, hctx, argmap))
         k = "EACH|%s|buffered-iter-creation" % nm
         if len(creations) != 1:
             out.append(Ob("EACH", k, "viol", loc, "%s creates %d buffered iterators" % (nm, len(creations))))
         else:
-            bi, t, c = creations[0]
-            cs = unref(ev.operand(ctx, t["args"][1]))
-            inloop = any(bi in s for s in sccs)
+            bi, t, c, hb, hctx, argmap = creations[0]
+            cs = _map_params(unref(ev.operand(hctx, t["args"][1])), argmap)
+            inloop = any(bi in s_ for (h_, s_) in hb.natural_loops()) or any(
+                sbb is not None and any(sbb in s_ for (h_, s_) in sb.natural_loops()) for (_b, _c, _m, (sb, sbb)) in parts
+                if _b is hb and sb is not None)
             okk = cs == ("param", 2) and not inloop
-            out.append(Ob("EACH", k, "ok" if okk else "viol", a.file_line(t["loc"]),
+            out.append(Ob("EACH", k, "ok" if okk else "viol", hb.file_line(t["loc"]),
                           "one buffered iterator with the caller's chunk size, created outside the loop" if okk else
                           "the buffered iterator of %s is created with chunk size %s%s" % (
                               nm, fmt(cs), " inside the loop" if inloop else ""), True))
+        # every normal path through the algorithm runs one of its pull loops (or a helper that does)
+        k = "EACH|%s|every-path-pulls" % nm
+        bad_part = None
+        for (hb, hctx, argmap, site) in parts:
+            avoid = {bp for (bp, _t, _c, _k, pb, _x) in pulls if pb is hb}
+            avoid |= {sbb for (_b, _c, _m, (sb, sbb)) in parts if sb is hb}
+            if hb.paths_avoiding(0, set(hb.exits()), avoid):
+                bad_part = hb
+        if bad_part is not None:
+            out.append(Ob("EACH", k, "viol", bad_part.file_line(),
+                          "%s has a path to its return that neither pulls from the iterator nor calls a helper that does: the "
+                          "call can return without consuming the iterator" % env.fname(bad_part)))
+        else:
+            out.append(Ob("EACH", k, "ok", loc, "every path pulls until the iterator reports the end", True))
         kinds = sorted(p[3] for p in pulls)
         k = "EACH|%s|pulls" % nm
         if kinds != ["buffered", "single"]:
@@ -286,8 +344,10 @@ def rule_each(env, shared):
                 nm, kinds)))
             continue
         out.append(Ob("EACH", k, "ok", loc, "one single-pull arm and one buffered arm"))
-        for (bp, t, c, kind) in pulls:
+        algo_body, algo_ctx = a, ctx
+        for (bp, t, c, kind, a, ctx) in pulls:
             key = "EACH|%s|%s-loop" % (nm, kind)
+            sccs = [body for (h, body) in a.natural_loops()]
             scc = [s for s in sccs if bp in s]
             if not scc:
                 out.append(Ob("EACH", key, "viol", a.file_line(t["loc"]),
@@ -334,6 +394,9 @@ def rule_each(env, shared):
             ucalls = [(bi2, t2, c2) for bi2, t2, c2 in a.calls() if bi2 in S and _user_call(c2)]
             fe = [(bi2, t2, c2) for bi2, t2, c2 in a.calls() if bi2 in S and c2.trait == "std::iter::Iterator"
                   and c2.name == "for_each"]
+            # (fold only) chunk.values.fold(acc, &mut f): std's left fold calls f once per element, in order
+            ifold = [(bi2, t2, c2) for bi2, t2, c2 in a.calls() if bi2 in S and c2.trait == "std::iter::Iterator"
+                     and c2.name == "fold" and nm == "fold" and len(t2["args"]) == 3 and _is_user_fn_operand(a, t2["args"][2])]
             k3 = key + "|one-call-per-element"
             payload = ev.payload(ctx, ev.local(ctx, res_local))
             if kind == "single":
@@ -353,13 +416,13 @@ def rule_each(env, shared):
                 good = False
                 why = ""
                 vals = ("field", payload, 1, "values", None)
-                if len(fe) == 1 and not ucalls and some_targets:
-                    bi2, t2, c2 = fe[0]
+                if len(fe) + len(ifold) == 1 and not ucalls and some_targets:
+                    bi2, t2, c2 = (fe + ifold)[0]
                     a0 = unref(ev.operand(ctx, t2["args"][0]))
                     mustpass = some_targets[0] == bi2 or not a.paths_avoiding(some_targets[0], {bp}, {bi2})
                     isvals = a0[0] == "field" and a0[2] == 1 and a0[1] == payload
                     good = mustpass and isvals
-                    why = "chunk.values.for_each(f)"
+                    why = "chunk.values.for_each(f)" if fe else "chunk.values.fold(acc, f)"
                 elif len(ucalls) == 1 and some_targets:
                     bi2, t2, c2 = ucalls[0]
                     inner = [s for s in sccs if bi2 in s and len(s) < len(S)]
@@ -436,6 +499,7 @@ def rule_each(env, shared):
                               "index passed to the function is the pulled index: " + detail if good else
                               "enumerate_for_each (%s arm) does not pass the pulled index with its own element to the function" % kind,
                               True))
+        a, ctx = algo_body, algo_ctx
         if nm == "fold":
             k = "EACH|fold|accumulator"
             good = False
@@ -450,6 +514,7 @@ def rule_each(env, shared):
                 init_ok = False
                 calls_ok = True
                 ncalls = 0
+                nfold = 0
                 for (bb, si, kd, pl) in defs:
                     if a.blocks[bb]["cleanup"]:
                         continue
@@ -468,6 +533,22 @@ def rule_each(env, shared):
                         bb, si, kd, pl = cd[0]
                     if kd == "call":
                         c2 = a.callee(bb)
+                        if c2 is not None and not c2.indirect and c2.trait == "std::iter::Iterator" and c2.name == "fold" \
+                                and len(pl["args"]) == 3 and _is_user_fn_operand(a, pl["args"][2]):
+                            # acc = values.fold(acc, &mut f): the initial value must be the accumulator itself
+                            o1 = pl["args"][1]
+                            l1 = o1["place"]["l"] if o1["k"] in ("move", "copy") and not o1["place"]["p"] else None
+                            srcs = {l1}
+                            for (b3, s3, k3_, rv3) in a.defs().get(l1, []) if l1 is not None else []:
+                                if k3_ == "assign" and rv3["k"] == "use" and rv3["op"]["k"] in ("move", "copy") \
+                                        and not rv3["op"]["place"]["p"]:
+                                    srcs.add(rv3["op"]["place"]["l"])
+                            if acc in srcs:
+                                ncalls += 1
+                                nfold += 1
+                            else:
+                                calls_ok = False
+                            continue
                         if not _user_call(c2):
                             calls_ok = False
                             continue
@@ -492,11 +573,58 @@ def rule_each(env, shared):
                         if not firstacc:
                             calls_ok = False
                 ucount = len([1 for bi2, t2, c2 in a.calls() if _user_call(c2) and not a.blocks[bi2]["cleanup"]])
-                good = init_ok and calls_ok and ncalls == ucount and ncalls >= 2
+                good = init_ok and calls_ok and ncalls == ucount + nfold and ncalls >= 2
             out.append(Ob("EACH", k, "ok" if good else "viol", loc,
                           "result = f(result, value) threads one accumulator from `neutral` to the returned value" if good else
                           "fold does not thread a single accumulator (initialised with `neutral`, updated by every call of the "
                           "function, returned at the end)", True))
+    return out
+
+
+def _is_user_fn_operand(a, op):
+    """operand is (a reference to) a value whose type is a type parameter of the algorithm: the user's function"""
+    if op["k"] not in ("move", "copy"):
+        return False
+    ty = a.locals[op["place"]["l"]]["ty"]
+    for e in op["place"]["p"]:
+        return False
+    while ty is not None and ty.get("k") in ("ref", "ptr"):
+        ty = ty.get("inner")
+    return ty is not None and ty.get("k") == "param"
+
+
+def _map_params(t, argmap):
+    """rewrite the parameters of a helper into terms over the algorithm's parameters"""
+    from r_m1 import rewrite
+    if argmap is None:
+        return t
+    return rewrite(t, lambda x: argmap.get(x[1], ("unknown", "helper-param")) if x[0] == "param" else None)
+
+
+def _algo_parts(env, ev, a, bn, depth=0, argmap=None, site=(None, None)):
+    """[(body, ctx, argmap, (caller body, call block))]: the algorithm and the crate-local free helper functions it calls
+    that pull from the iterator; argmap (None for the algorithm itself) maps a helper's parameter index to a term over
+    the algorithm's parameters"""
+    from terms import Ctx
+    F, R = env.F, env.R
+    ctx = Ctx(a, stack=(a.def_,))
+    out = [(a, ctx, argmap, site)]
+    if depth >= 2:
+        return out
+    for bi, t, c in a.calls():
+        if a.blocks[bi]["cleanup"] or not c.local or c.trait or c.def_ not in F.bodies:
+            continue
+        hb = F.bodies[c.def_]
+        if hb.is_closure or F.impl_self_adt(hb) is not None or (bn is not None and hb.def_ == bn.def_):
+            continue
+        touches = any((c2.trait == R.T_CON and c2.name in ("next", "next_id_and_value", "buffered_iter"))
+                      or (bn is not None and c2.def_ == bn.def_) for _, _, c2 in hb.calls())
+        if not touches:
+            continue
+        am = {}
+        for i, ao in enumerate(t["args"]):
+            am[i + 1] = _map_params(unref(ev.operand(ctx, ao)), argmap)
+        out.extend(_algo_parts(env, ev, hb, bn, depth + 1, am, (a, bi)))
     return out
 
 
